@@ -16,6 +16,8 @@ type AutoSimulator interface {
 	Auto(site string)
 	// WaitFor parks the calling goroutine until cond holds (evaluated when nothing runs).
 	WaitFor(label string, cond func() bool)
+	// NoAuto exempts the calling goroutine from machine-inserted interleaving points.
+	NoAuto()
 }
 
 func auto() AutoSimulator {
@@ -25,6 +27,17 @@ func auto() AutoSimulator {
 		}
 	}
 	return nil
+}
+
+// SelectLoop is called once by a goroutine that multiplexes several channels with select (the
+// reducer of AsyncMapReduce, the listener of a subscription). A Go select with two ready cases
+// chooses at random, so the simulator lets at most one sender be pending on such a goroutine; that
+// only works while the goroutine is not stopped elsewhere, therefore machine-inserted points do
+// not stop it.
+func SelectLoop() {
+	if a := auto(); a != nil {
+		a.NoAuto()
+	}
 }
 
 // Auto marks a machine-inserted interleaving point.
